@@ -68,23 +68,47 @@ func (x *Exec) assumeZeroOffsetsQuiet(v *Value) {
 
 // jsonMerge computes the value of a struct of type t after decoding d into `old`.
 func (x *Exec) jsonMerge(t types.Type, d *Term, old *Value) *Value {
+	return x.jsonMergeSh(t, d, old, nil)
+}
+
+// jsonMergeSh: shadow holds the keys of fields declared at a shallower embedding depth, which
+// encoding/json prefers over a deeper field with the same key (the deeper one is left alone).
+func (x *Exec) jsonMergeSh(t types.Type, d *Term, old *Value, shadow map[string]bool) *Value {
 	st, ok := under(t).(*types.Struct)
 	if !ok {
 		return x.jdecode(t, d, "")
 	}
+	embedded := func(i int) bool {
+		f := st.Field(i)
+		if !f.Anonymous() {
+			return false
+		}
+		if _, tagged := reflect.StructTag(st.Tag(i)).Lookup("json"); tagged {
+			return false
+		}
+		_, isStruct := under(f.Type()).(*types.Struct)
+		return isStruct
+	}
+	inner := map[string]bool{}
+	for k := range shadow {
+		inner[k] = true
+	}
+	for i := 0; i < st.NumFields(); i++ {
+		if !embedded(i) {
+			if key, use := jsonKey(st.Field(i), st.Tag(i)); use {
+				inner[key] = true
+			}
+		}
+	}
 	out := &Value{K: KStruct, T: t}
 	for i := 0; i < st.NumFields(); i++ {
 		f := st.Field(i)
-		if f.Anonymous() {
-			if _, tagged := reflect.StructTag(st.Tag(i)).Lookup("json"); !tagged {
-				if _, isStruct := under(f.Type()).(*types.Struct); isStruct {
-					out.Fields = append(out.Fields, x.jsonMerge(f.Type(), d, old.Fields[i]))
-					continue
-				}
-			}
+		if embedded(i) {
+			out.Fields = append(out.Fields, x.jsonMergeSh(f.Type(), d, old.Fields[i], inner))
+			continue
 		}
 		key, use := jsonKey(f, st.Tag(i))
-		if !use {
+		if !use || shadow[key] {
 			out.Fields = append(out.Fields, old.Fields[i])
 			continue
 		}
